@@ -8,6 +8,7 @@ import (
 	"strings"
 	"time"
 
+	"github.com/getlantern/goexpr"
 	"github.com/getlantern/zenodb/core"
 	"github.com/getlantern/zenodb/sql"
 )
@@ -107,6 +108,17 @@ func pushdownAllowed(opts *Opts, query *sql.Query) (bool, error) {
 		}
 	}
 
+	for sub := query.FromSubQuery; sub != nil; sub = sub.FromSubQuery {
+		if whereHasSubQuery(sub) {
+			// Only the subqueries in the WHERE clause of the outermost query are
+			// run by the leader against the whole cluster. When pushed down, the
+			// ones further inside would be run by each partition against only
+			// its own data.
+			log.Debugf("Pushdown not allowed because subquery filters on the result of another subquery: %v", sub.SQL)
+			return false, nil
+		}
+	}
+
 	parentGroupByAll := true
 	parentGroupParams := make(map[string]bool)
 	for current := query; current != nil; current = current.FromSubQuery {
@@ -182,6 +194,20 @@ func pushdownAllowed(opts *Opts, query *sql.Query) (bool, error) {
 	}
 
 	return false, fmt.Errorf("Should never reach this branch of pushdownAllowed")
+}
+
+// whereHasSubQuery checks whether the query's WHERE clause contains any
+// IN (SELECT ...) subqueries.
+func whereHasSubQuery(query *sql.Query) bool {
+	found := false
+	if query.Where != nil {
+		query.Where.WalkLists(func(list goexpr.List) {
+			if _, ok := list.(*sql.SubQuery); ok {
+				found = true
+			}
+		})
+	}
+	return found
 }
 
 // tableKeysConfinedToPartition checks whether all points that end up under the
